@@ -118,6 +118,7 @@ func cpuOpTable(fn *ast.FuncDecl) (t6502, t65c02 map[int]string, err error) {
 	t65c02 = map[int]string{}
 
 	var walk func(stmts []ast.Stmt, in6502, in65c02 bool) error
+	helperDepth := 0
 	handler := func(rhs ast.Expr) (string, error) {
 		switch v := rhs.(type) {
 		case *ast.SelectorExpr:
@@ -183,6 +184,25 @@ func cpuOpTable(fn *ast.FuncDecl) (t6502, t65c02 map[int]string, err error) {
 				}
 				if in65c02 {
 					t65c02[int(code)] = h
+				}
+			case *ast.ExprStmt:
+				// registerSomething(res) / res.registerSomething(): a helper of package cpu that fills part of the table
+				if call, ok := v.X.(*ast.CallExpr); ok {
+					name := ""
+					switch f := call.Fun.(type) {
+					case *ast.Ident:
+						name = f.Name
+					case *ast.SelectorExpr:
+						name = f.Sel.Name
+					}
+					if g, ok := allCpuFuncs[name]; ok && g.Body != nil && g.Name.Name != "New6502" && helperDepth < 3 {
+						helperDepth++
+						err := walk(g.Body.List, in6502, in65c02)
+						helperDepth--
+						if err != nil {
+							return err
+						}
+					}
 				}
 			case *ast.IfStmt:
 				// if m == Model6502 { ... }  /  if m == Model65C02 { ... }
